@@ -13,6 +13,7 @@ import (
 	"fmt"
 	"io"
 	"net"
+	"os"
 	"sync"
 	"testing"
 	"time"
@@ -587,6 +588,15 @@ func runHs(t *testing.T, ksc KScenario, res *KResult) {
 		d2 := dial(1, true, horizon)
 		hsCheckOutcome(w, sc, nodes, d2, 1, true, hsTimeout, report, res)
 		res.Logf("resumed dial: conn=%v sconn=%v cerr=%v", d2.conn != nil, d2.sconn != nil, d2.cerr)
+		if os.Getenv("VERIF_DUMP_QLOG") != "" {
+			for k := 0; k < 2; k++ {
+				for _, e := range nodes.QLog[k].Events {
+					if e.AtNS > 3e9 {
+						res.Logf("qlog side %d %d %T %+v", k, e.AtNS/1000, e.Ev, e.Ev)
+					}
+				}
+			}
+		}
 		if d2.sconn != nil {
 			res.Logf("   server Used0RTT=%v", d2.sconn.ConnectionState().Used0RTT)
 		}
@@ -721,7 +731,17 @@ func runHs(t *testing.T, ksc KScenario, res *KResult) {
 		if anyTrue && !valid && !sc.Cfg.Retry {
 			report("C14", "server treated an invalid token as proof of address: "+sc.Token, "AddrVerified=true for a %s token (age %ds)", sc.Token, sc.AgeS)
 		}
-		if !anyTrue && valid && sc.Token == "valid" && sc.AgeS == 0 && len(d2.verified) > 0 {
+		// (the server judges the token of the datagram it creates the connection from: if a copy of a token-carrying Initial
+		// was damaged on the way, that may have been a damaged token)
+		damagedInitial := false
+		if d2.tap != nil {
+			for _, p := range d2.tap.Packets {
+				if p.Dir == 0 && p.Type == TapInitial && len(p.Token) > 0 && w.Log[0][p.Ord].Damaged && len(w.Log[0][p.Ord].Delivered) > 0 {
+					damagedInitial = true
+				}
+			}
+		}
+		if !anyTrue && valid && sc.Token == "valid" && sc.AgeS == 0 && len(d2.verified) > 0 && !damagedInitial {
 			report("C14", "server did not accept a fresh valid token from the same address", "AddrVerified=false in all %d connection attempts", len(d2.verified))
 		}
 	}
